@@ -217,6 +217,35 @@ def gen_cases(ctx):
                 c = emit(kind, dm, rng.randrange(2), cells, "rand", str(k))
                 if c:
                     yield c
+    # 2b. pockets: a solid block with a background pocket that RESTS ON THE BOTTOM layer and is closed on its sides and
+    #     above (the bottom face is not an exit: only sides and top are), optionally with a chimney that stops one
+    #     cell short of the top, and the same pocket lifted off the bottom; plus a few random holes elsewhere
+    for dm in [(3, 3, 2), (3, 3, 3), (4, 4, 3), (5, 4, 3), (5, 5, 4)] + ([] if ctx.quick else [(7, 7, 3), (6, 6, 5)]):
+        X, Y, Z = dm
+        k = 0
+        for x0 in range(1, X - 1):
+            for x1 in range(x0 + 1, X):
+                for y0 in range(1, Y - 1):
+                    for y1 in range(y0 + 1, Y):
+                        for h in range(1, Z):
+                            for lift in (0, 1):
+                                if lift + h >= Z or (ctx.quick and X * Y > 9 and (x0 * 3 + y0 * 5 + x1 + y1 + h + lift) % 3):
+                                    continue
+                                cells = [1] * (X * Y * Z)
+                                for x in range(x0, x1):
+                                    for y in range(y0, y1):
+                                        for z in range(lift, lift + h):
+                                            cells[x * Y * Z + y * Z + z] = 0
+                                k += 1
+                                for noise in (0, 1):
+                                    cc = list(cells)
+                                    if noise:
+                                        for _ in range(2):
+                                            cc[rng.randrange(X * Y * Z)] = 0
+                                    for kind in ("connect", "remove"):
+                                        c = emit(kind, dm, (k + noise) % 2, cc, "pocket", f"{k}n{noise}")
+                                        if c:
+                                            yield c
     # 3. adversarial paths: every prefix, eight orientations; for connect also the complement (air channel)
     bases = [(5, 5, 3), (7, 7, 3), (3, 3, 3), (4, 4, 5)] if ctx.quick else [(5, 5, 3), (7, 7, 3), (6, 5, 4), (3, 3, 3), (4, 4, 5), (9, 7, 3), (8, 8, 5), (3, 3, 8)]
     fams = []
